@@ -312,6 +312,11 @@ func (w *joinWorld) srcEvent(kind string, srv *kv.Server) {
 			t = watch.Modified
 		}
 	}
+	w.applyTo(srv, kind, t, o)
+}
+
+// applyTo makes one change on a server and writes it to the trace
+func (w *joinWorld) applyTo(srv *kv.Server, kind string, t watch.EventType, o kv.Obj) {
 	o = srv.Apply(t, o)
 	name2 := map[watch.EventType]string{watch.Added: "create", watch.Modified: "update", watch.Deleted: "delete"}[t]
 	which := "jsrc"
@@ -329,6 +334,26 @@ func (w *joinWorld) srcEvent(kind string, srv *kv.Server) {
 		w.tr.line(kv.L(which, name2, o.SrcSx()))
 	}
 	w.tr.stats["act:"+which]++
+}
+
+// flipflop: a source changes and at once changes back (created and deleted again, or its selector changed and
+// restored): the join's filter goes A -> B -> A in quick succession and must end at A
+func (w *joinWorld) flipflop(kind string, srv *kv.Server) {
+	ns, name := kv.Pick(w.r, joinNS), kv.Pick(w.r, joinNames)
+	cur, ok := srv.Get(ns + "/" + name)
+	if !ok {
+		o := kv.Obj{Kind: kind, NS: ns, Name: name, Selector: map[string]string{"app": "1"}, WLabels: map[string]string{"app": "1"},
+			WSel: &kv.LabelSel{ML: map[string]string{"app": "1"}}, Default: kv.Pick(w.r, joinNames)}
+		w.applyTo(srv, kind, watch.Added, o)
+		now, _ := srv.Get(ns + "/" + name)
+		w.applyTo(srv, kind, watch.Deleted, now)
+		return
+	}
+	alt := cur
+	alt.Selector, alt.WLabels, alt.WSel, alt.Default, alt.Paths = kv.Pick(w.r, joinSelLabels), kv.Pick(w.r, joinSelLabels), kv.Pick(w.r, joinLabelSels()), kv.Pick(w.r, joinNames), nil
+	w.applyTo(srv, kind, watch.Modified, alt)
+	w.applyTo(srv, kind, watch.Modified, cur)
+	w.tr.stats["act:flipflop"]++
 }
 
 func listSx(f func() ([]metav1.Object, error), src bool) string {
@@ -441,7 +466,9 @@ func runJoinScenario(t *testing.T, tr *tracer, idx int, seed uint64) {
 				tr.line(kv.L("burst-begin"))
 			}
 			for j := 0; j < n; j++ {
-				switch x := r.Intn(10); {
+				switch x := r.Intn(11); {
+				case x == 10:
+					w.flipflop(jc.srcKind, w.srcSrv)
 				case x < 4:
 					w.srcEvent(jc.srcKind, w.srcSrv)
 				case x < 6 && w.midSrv != nil:
